@@ -22,3 +22,23 @@ fn named_syscall_state_per_key()
     std::mem::forget(world);
     kani::cover!(true, "end of harness reached");
 }
+
+fn outer_calls_inner(In(x): In<u8>, world: &mut World) -> u8 { named_syscall(world, 8u32, x, counting_n) }
+
+/// C17 (nested calls): a named system called while ANOTHER named system with the same input/output types is running
+/// finds its own persisted state and keeps what it did: keys stay independent and persistent across nesting.
+#[kani::proof]
+#[kani::stub(core::any::TypeId::of, crate::vh::stub_typeid_of)]
+#[kani::stub(<core::any::TypeId as crate::vh::PEq>::eq, crate::vh::stub_typeid_eq)]
+#[kani::unwind(6)]
+fn named_syscall_nested_other_key()
+{
+    let mut world = World::new();
+    let x: u8 = kani::any();
+    kani::assume(x < 50);
+    assert!(named_syscall(&mut world, 8u32, x, counting_n) == x + 1);
+    assert!(named_syscall(&mut world, 7u32, x, outer_calls_inner) == x + 2, "C17: a nested call to another key continues THAT key's state");
+    assert!(named_syscall(&mut world, 8u32, x, counting_n) == x + 3, "C17: and what the nested call did persists after the outer call returns");
+    std::mem::forget(world);
+    kani::cover!(true, "end of harness reached");
+}
